@@ -212,6 +212,12 @@ asn_encode_to_new_buffer(const asn_codec_ctx_t *opt_codec_ctx,
                || (size_t)res.result.encoded == buf_key.computed_size);
     }
 
+    if(res.result.encoded < 0) {
+        /* The header promises NULL if failed to encode */
+        FREEMEM(buf_key.buffer);
+        buf_key.buffer = 0;
+    }
+
     res.buffer = buf_key.buffer;
 
     /* 0-terminate just in case. */
